@@ -17,6 +17,11 @@ class BasisFn:
         self.mode, self.k = mode, k
 
     def __call__(self, x):
+        if isinstance(x, Arr) and x.ndim == 2 and 'role' in x.tags:
+            # a basis function is a map R^d -> R: calling it on the d x m data matrix equals the snapshot-wise evaluation only for functions written column-wise
+            A.CTX.event('whole-matrix-call', array=x, detail=f'a basis function is called on the whole data matrix `{x.tags["role"]}` instead of snapshot by snapshot: for a function '
+                        'defined at a point (t -> sum(t**2), t -> max(t[0], 0)) the result is one number (or a wrong array) that is broadcast over all snapshots')
+            return Arr((x.shape[1],), None, 'real', None, {'basis': ('whole-matrix',), 'point': x, 'vectorised': True}, 'basis-value')
         return Arr((), [], 'real', None, {'basis': (self.mode, self.k), 'point': x}, 'basis-value')
 
 
@@ -92,6 +97,12 @@ def check(repo, tier):
                 l2rules.raised_finding(run, 'C18', 'D2', repo, entry, scen, exc)
                 continue
             l2rules.relative_cut_obligations(run, 'C18', 'D3', repo, sc, scen, mods, expected=({thr} if variant == 'amuset_hosvd' else None), only_fns={'truncated_svd', 'amuset_hosvd'})
+            l2rules.whole_matrix_call_obligations(run, 'C18', 'D2', repo, sc, scen, mods | {'data_driven.transform'})
+            roots_ = [c_ for t_ in (res[1] if isinstance(res[1], list) else [res[1]]) if hasattr(t_, '_attrs') for c_ in t_._attrs.get('cores', [])]
+            cr = l2rules.cut_respected(sc, roots_)
+            run.oblige('D3', (entry, scen, 'cut respected'), not cr)
+            if cr:
+                run.add(F(entry, 'D3', 'relative cut overridden', f'{scen}: ' + '; '.join(cr[:2])))
             evs, ets = res[0], res[1]
             if npairs == 1:
                 evs, ets = [evs], [ets]
@@ -119,6 +130,48 @@ def check(repo, tier):
                 # (the inverse may also be written as a division by s: count the diag(1/s) factors of the matrix expression of the core)
                 from . import mx
                 mlast = mx.canon(A.unfolding_mx(last, last.shape[0])) if last.ndim >= 2 else ()
+                # the relative cut is a selection of singular triplets: where a cut was computed from the singular values of a decomposition, every factor of that
+                # decomposition that ends up in the eigentensor carries the selector (an uncut U or 1/s next to a cut -- or zero-filled -- partner keeps the discarded directions)
+                cut_uids = set()
+                for e_ in sc.events('where'):
+                    todo2, seen2 = [e_.get('cond')], set()
+                    while todo2:          # the singular values that are compared: the nearest decomposition output on every path (not the decompositions behind it)
+                        a_ = todo2.pop()
+                        if not isinstance(a_, Arr) or id(a_) in seen2:
+                            continue
+                        seen2.add(id(a_))
+                        pv_ = a_.tags.get('prov')
+                        if isinstance(pv_, dict) and 'svd' in pv_:
+                            if pv_.get('role') == 's':
+                                cut_uids.add(pv_['svd'])
+                            continue
+                        todo2.extend(a_.parents or ())
+                        ex_ = a_.tags.get('expr')
+                        if ex_:
+                            todo2.extend(o_ for o_ in ex_[1] if isinstance(o_, Arr))
+                uncut = [f_ for f_ in mlast if f_[0] in ('U', 'S', 'Sinv', 'V') and f_[1] in cut_uids and f_[3] is None]
+                if uncut:
+                    bad.append(f'the last core of eigentensor {k} contains the uncut factor(s) {mx.show(tuple(uncut))} of a decomposition whose singular values were cut by the relative threshold')
+                # (same rule on the def-use graph, for cores without a matrix expression: a raw factor of a cut decomposition is consumed by something other than the selection)
+                raw_used = set()
+                seen_, todo_ = {}, [last]
+                while todo_:          # value ancestors only: an index array (the selector itself) is not followed
+                    a_ = todo_.pop()
+                    if id(a_) in seen_ or not isinstance(a_, Arr):
+                        continue
+                    seen_[id(a_)] = a_
+                    if a_.origin in ('eig.v', 'eig.w', 'eigh.v', 'eigh.w'):
+                        continue
+                    todo_.extend(list(a_.parents[:1]) if a_.origin == 'getitem' else list(a_.parents or ()))
+                    todo_.extend(a_.buf.inputs or ())
+                for a_ in seen_.values():
+                    for p_ in (list(a_.parents[:1]) if a_.origin == 'getitem' else list(a_.parents or ())) + list(a_.buf.inputs or ()):
+                        pv_ = p_.tags.get('prov') if isinstance(p_, Arr) else None
+                        if isinstance(pv_, dict) and pv_.get('svd') in cut_uids and pv_.get('role') in ('u', 's') and 'sel' not in pv_ and a_.origin != 'getitem' and p_.origin.startswith('svd'):
+                            raw_used.add(pv_['role'])
+                if raw_used:
+                    bad.append(f'the last core of eigentensor {k} is computed from the uncut factor(s) {sorted(raw_used)} of a decomposition whose singular values were cut by the relative threshold '
+                               f'(the discarded directions stay in the eigentensor, with their tiny singular values inverted)')
                 n_inv = max(len(svals), sum(1 for f_ in mlast if f_[0] == 'Sinv'))
                 if n_inv != 1:
                     if n_inv == 0 and any(f_[0] == 'src' for f_ in mlast) and not any(f_[0] == 'S' for f_ in mlast):
